@@ -6,7 +6,7 @@ from typing import Any, Dict
 
 from .. import gen, hta
 from ..core import Prop
-from .common import case_from_cfg, frame_rows, write_and_load
+from .common import case_from_cfg, draw_prefix, frame_rows, write_and_load
 
 
 def breakdown_cfg(rng: random.Random, tier: str) -> gen.GenCfg:
@@ -44,6 +44,7 @@ class C04(Prop):
         for _ in range(50):
             case = case_from_cfg(rng, breakdown_cfg(rng, tier))
             if all(any(e.get("pid") == 0 and e.get("ph") == "X" for e in r["events"]) for r in case["ranks"]):
+                case["prefix"] = draw_prefix(rng)
                 return case
         raise RuntimeError("could not generate a trace with device activities on every rank")
 
